@@ -537,6 +537,8 @@ def location_path_pattern(draw, d, allow_key=False):
                 sep = '/'
             if sep == '//' and head == '/' and flag('no_abs_with_inner_dslash'):
                 sep = '/'
+            if sep == '//' and (i >= 2 or head in ('id', 'key', '//')) and flag('no_multi_step_before_dslash'):
+                sep = '/'
             toks.append(sep)
         sp = draw(step_pattern(d))
         prev_node_test = 'node' in sp and sp[0] not in ('@', 'attribute')
